@@ -132,7 +132,8 @@ def extract_root(model: ModelMeta) -> Set[Index]:
         seen.add(node.type.index)
         filtered = list(filter_pointers(node.parent))
         nodes.extend(ptr for ptr in filtered if ptr.type.index not in seen)
-        if not filtered:
+        if len(filtered) != len(node.parent.pointers):
+            # The parent is a root model: it has a pointer without a parent (it can be referred to from below as well)
             roots.add(node.parent.index)
     return roots
 
